@@ -87,7 +87,11 @@ type c15Sc struct {
 	ctTrue     []uint64
 	nextSeq    []uint64
 	parked     int
+	slowRecv   bool // the next Receive parks at a gate
+	recvParked bool
+	quiet      bool // outcomes depend on Go's select from here on: nothing more enters the ordered log
 	admitted   []c15Adm
+	stable     int // admitted[:stable] were complete (stored) at the last quiescence; set by the simulator only
 	received   map[uint64]int
 }
 
@@ -97,6 +101,16 @@ type c15State struct {
 }
 
 func (s *c15State) MemberIndex() group.MemberIndex { return 1 }
+
+// logf writes to the ordered event log until the run turned quiet.
+func (sc *c15Sc) logf(format string, args ...interface{}) {
+	sc.mu.Lock()
+	q := sc.quiet
+	sc.mu.Unlock()
+	if !q {
+		sc.r.Logf(format, args...)
+	}
+}
 
 // snapshot reads the history of every message type through the real
 // BaseAsyncState. Callers take it BEFORE touching any harness lock, so that the
@@ -112,8 +126,10 @@ func (sc *c15Sc) snapshot() [][]net.Message {
 
 // checkVisible: every message admitted so far is in the history offered to state k.
 func (sc *c15Sc) checkVisible(k int, where string, snap [][]net.Message) {
+	// only messages whose Receive had certainly finished when the snapshot was
+	// taken: a Receive may be running right now in the Execute loop
 	sc.mu.Lock()
-	adm := append([]c15Adm(nil), sc.admitted...)
+	adm := append([]c15Adm(nil), sc.admitted[:sc.stable]...)
 	sc.mu.Unlock()
 	want := map[[2]uint64]int{}
 	var keys [][2]uint64
@@ -153,7 +169,7 @@ func (s *c15State) Initiate(ctx context.Context) error {
 	sc.initStart[s.k] = sc.r.Seq()
 	slow := sc.slow[s.k]
 	sc.mu.Unlock()
-	sc.r.Logf("initiate state %d", s.k)
+	sc.logf("initiate state %d", s.k)
 	sc.checkVisible(s.k, "Initiate", snap)
 	if err := sc.ch.Send(ctx, &c15Msg{State: uint8(s.k), Valid: true, ID: uint64(100 + s.k)}); err != nil {
 		return err
@@ -175,10 +191,10 @@ func (s *c15State) Initiate(ctx context.Context) error {
 	}
 	sc.mu.Unlock()
 	if fail {
-		sc.r.Logf("initiate state %d fails", s.k)
+		sc.logf("initiate state %d fails", s.k)
 		return c15ErrInit
 	}
-	sc.r.Logf("initiate state %d returns", s.k)
+	sc.logf("initiate state %d returns", s.k)
 	return nil
 }
 
@@ -188,6 +204,21 @@ func (s *c15State) Receive(m net.Message) error {
 		return nil
 	}
 	sc := s.sc
+	// slow Receive: the Execute loop is busy here and reads neither the
+	// receive buffer nor the transition signal nor ctx.Done
+	sc.mu.Lock()
+	slow := sc.slowRecv
+	sc.slowRecv = false
+	if slow {
+		sc.recvParked = true
+	}
+	sc.mu.Unlock()
+	if slow {
+		sc.gates.PointAs("recv", "Receive")
+		sc.mu.Lock()
+		sc.recvParked = false
+		sc.mu.Unlock()
+	}
 	// all bookkeeping happens BEFORE the history write (see snapshot)
 	sc.mu.Lock()
 	sc.received[p.ID]++
@@ -196,10 +227,10 @@ func (s *c15State) Receive(m net.Message) error {
 	}
 	sc.mu.Unlock()
 	if !p.Valid {
-		sc.r.Logf("state %d rejects message id=%d", s.k, p.ID)
+		sc.logf("state %d rejects message id=%d", s.k, p.ID)
 		return fmt.Errorf("c15: message rejected by validation")
 	}
-	sc.r.Logf("state %d admits message id=%d of state %d", s.k, p.ID, p.State)
+	sc.logf("state %d admits message id=%d of state %d", s.k, p.ID, p.State)
 	if int(p.State) > s.k {
 		sc.r.Probe("message-for-later-state-admitted")
 		if int(p.State) >= s.k+2 {
@@ -234,7 +265,7 @@ func (s *c15State) CanTransition() bool {
 			sc.ctTrue[s.k] = sc.r.Seq()
 		}
 		sc.mu.Unlock()
-		sc.r.Logf("state %d can transition", s.k)
+		sc.logf("state %d can transition", s.k)
 	}
 	return ready
 }
@@ -258,7 +289,7 @@ func (s *c15State) Next() (AsyncState, error) {
 	}
 	sc.mu.Unlock()
 	sc.checkVisible(s.k, "Next", snap)
-	sc.r.Logf("next of state %d", s.k)
+	sc.logf("next of state %d", s.k)
 	if fail {
 		return nil, c15ErrNext
 	}
@@ -285,10 +316,14 @@ func c15Run(t *testing.T, r *verifsim.Run) {
 	if tp.Chance("next-error", 1, 16) {
 		sc.nextErr = tp.Choose("next-error-state", n)
 	}
+	if sc.initErr >= 0 && tp.Chance("init-error-slow", 1, 2) {
+		sc.slow[sc.initErr] = true
+	}
 	cancelAllowed := tp.Chance("cancel-allowed", 1, 4)
+	floodMode := tp.Chance("flood-mode", 1, 30) // rare: > 512 messages arrive while a Receive is slow
 	sc.initStart, sc.initEnd, sc.ctTrue, sc.nextSeq = make([]uint64, n), make([]uint64, n), make([]uint64, n), make([]uint64, n)
 	sc.ctCalls = make([]int, n)
-	r.Logf("cfg states=%d peers=%d need=%v slow=%v initErr=%d nextErr=%d cancelAllowed=%v", n, peers, sc.need, sc.slow, sc.initErr, sc.nextErr, cancelAllowed)
+	sc.logf("cfg states=%d peers=%d need=%v slow=%v initErr=%d nextErr=%d cancelAllowed=%v", n, peers, sc.need, sc.slow, sc.initErr, sc.nextErr, cancelAllowed)
 
 	sn := verifadapt.NewNet()
 	self := sn.AddNode(local_v1.DefaultCurve)
@@ -343,7 +378,15 @@ func c15Run(t *testing.T, r *verifsim.Run) {
 		done, endState, endErr = true, st, err
 		resMu.Unlock()
 	}()
-	synctest.Wait()
+	// wait = quiescence; every Receive that started has finished (or is parked
+	// at its entry, before any bookkeeping)
+	wait := func() {
+		synctest.Wait()
+		sc.mu.Lock()
+		sc.stable = len(sc.admitted)
+		sc.mu.Unlock()
+	}
+	wait()
 	isDone := func() bool {
 		resMu.Lock()
 		defer resMu.Unlock()
@@ -372,20 +415,78 @@ func c15Run(t *testing.T, r *verifsim.Run) {
 	}
 	cancelled := false
 	junkN := 0
+	recvParked := func() bool {
+		sc.mu.Lock()
+		defer sc.mu.Unlock()
+		return sc.recvParked
+	}
+	// bookkeeping of one slow-Receive episode
+	var heldWhileParked []*flight // first copies handed over while the loop was busy in Receive
+	parkOther := 0                // clock steps / Initiate releases during the episode
+	parkCancel := false
+	flooded := false
 
 	deliver := func(f *flight, why string) bool {
 		before := recvCount(f.id)
 		wasDone := isDone()
 		first := f.delivered == 0
+		busy := recvParked()
 		f.delivered++
 		handlers := sn.Deliver(f.env, self.Index)
-		synctest.Wait()
+		wait()
 		collect()
-		r.Logf("%s id=%d state=%d copy=%d handlers=%d", why, f.id, f.state, f.delivered, handlers)
+		sc.logf("%s id=%d state=%d copy=%d handlers=%d", why, f.id, f.state, f.delivered, handlers)
+		if busy || recvParked() {
+			// the loop is (or just became) busy: judged after the release
+			if first && handlers > 0 && busy {
+				heldWhileParked = append(heldWhileParked, f)
+			}
+			return true
+		}
 		// a first copy handed to a running, non-cancelled machine must reach a state
 		if first && handlers > 0 && !wasDone && !cancelled && !isDone() && recvCount(f.id) != before+1 {
 			r.Failf("C15:delivered-message-not-received", "message id=%d (state %d) was handed to the machine's channel handler while the machine was running in state %d, but no state's Receive got it", f.id, f.state, current())
 			return false
+		}
+		return true
+	}
+	// releaseRecv ends a slow Receive and judges what was handed over meanwhile
+	releaseRecv := func() bool {
+		held := heldWhileParked
+		sources := 0
+		if len(held) > 0 {
+			sources++
+		}
+		if parkOther > 0 {
+			sources++
+		}
+		if parkCancel {
+			sources++
+		}
+		sc.logf("release receive (held=%d other=%d cancel=%v)", len(held), parkOther, parkCancel)
+		if sources >= 2 || len(held) > 400 {
+			// several things are ready when the loop returns to its select (or
+			// hundreds of handlers race for the buffer): Go decides the order.
+			// The schedule is logged above; what follows is judged, not logged.
+			sc.mu.Lock()
+			sc.quiet = true
+			sc.mu.Unlock()
+			r.Probe("select-order-decided-by-go")
+		}
+		heldWhileParked, parkOther, parkCancel = nil, 0, false
+		sc.gates.Release("recv")
+		wait()
+		collect()
+		if recvParked() {
+			return true // cannot happen (slowRecv is one-shot); be safe
+		}
+		if !isDone() && !cancelled {
+			for _, f := range held {
+				if recvCount(f.id) < 1 {
+					r.Failf("C15:delivered-message-not-received", "message id=%d (state %d) was handed to the machine's channel handler while a Receive was in progress (%d messages handed over meanwhile); the machine is running (state %d) and idle again, but no state's Receive ever got it", f.id, f.state, len(held), current())
+					return false
+				}
+			}
 		}
 		return true
 	}
@@ -394,13 +495,13 @@ func c15Run(t *testing.T, r *verifsim.Run) {
 		sc.mu.Lock()
 		initFailed, nextFailed := sc.initFailed, sc.nextFailed
 		sc.mu.Unlock()
-		if !isDone() {
+		if !isDone() && !recvParked() {
 			switch {
 			case cancelled:
 				r.Failf("C15:no-return-after-cancel", "context cancelled, system quiescent, Execute has not returned (current state %d)", current())
 				return false
 			case initFailed:
-				r.Failf("C15:no-return-after-initiation-error", "Initiate of state %d returned an error, system quiescent, Execute has not returned", sc.initErr)
+				r.Failf("C15:no-return-after-initiation-error", "Initiate of state %d returned an error, system quiescent, the loop is idle, Execute has not returned", sc.initErr)
 				return false
 			case nextFailed:
 				r.Failf("C15:no-return-after-next-error", "Next of state %d returned an error, system quiescent, Execute has not returned", sc.nextErr)
@@ -433,6 +534,12 @@ func c15Run(t *testing.T, r *verifsim.Run) {
 		if parked() >= 0 {
 			add("release", 3)
 		}
+		if recvParked() {
+			add("release-receive", 3)
+			if floodMode && !flooded {
+				add("flood", 6)
+			}
+		}
 		if len(deliveredOnce) > 0 {
 			add("duplicate", 1)
 		}
@@ -453,23 +560,69 @@ func c15Run(t *testing.T, r *verifsim.Run) {
 			if parked() >= 0 {
 				r.Fault("delivery-during-initiate")
 			}
+			if !recvParked() && tp.Chance("slow-receive", 1, 6) {
+				sc.mu.Lock()
+				sc.slowRecv = true
+				sc.mu.Unlock()
+				r.Fault("slow-receive")
+				sc.logf("next Receive is slow")
+			}
+			if recvParked() {
+				r.Fault("delivery-during-receive")
+			}
 			if !deliver(f, "deliver") {
 				return
 			}
+		case "release-receive":
+			if !releaseRecv() {
+				return
+			}
+		case "flood":
+			flooded = true
+			cnt := 520 + tp.Choose("flood-extra", 200)
+			r.Fault("flood-over-receive-buffer")
+			sc.logf("flood: %d distinct messages while Receive is busy", cnt)
+			for i := 0; i < cnt; i++ {
+				st := cur + i%4
+				if st >= n {
+					st = n - 1
+				}
+				peerCh[i%peers].Send(ctx, &c15Msg{State: uint8(st), Valid: true, ID: uint64(2000000 + i)})
+			}
+			for _, e := range sn.Drain() {
+				m := &c15Msg{}
+				if m.Unmarshal(e.Payload) != nil {
+					continue
+				}
+				fl := &flight{env: e, state: int(m.State), id: m.ID, valid: m.Valid, delivered: 1}
+				pool = append(pool, fl)
+				if sn.Deliver(e, self.Index) > 0 {
+					heldWhileParked = append(heldWhileParked, fl)
+				}
+			}
+			wait()
 		case "tick":
 			d := []time.Duration{100 * time.Millisecond, 50 * time.Millisecond, 300 * time.Millisecond, time.Second, time.Millisecond}[tp.Choose("tick", 5)]
 			time.Sleep(d)
-			synctest.Wait()
+			wait()
 			collect()
 			r.AddSim(int64(d), 0)
-			r.Logf("clock +%v", d)
+			sc.logf("clock +%v", d)
+			if recvParked() {
+				parkOther++
+				r.Fault("clock-step-during-receive")
+			}
 		case "release":
 			k := parked()
 			r.Fault("slow-initiate")
-			r.Logf("release initiate of state %d", k)
+			sc.logf("release initiate of state %d", k)
 			sc.gates.Release(fmt.Sprintf("init-%d", k))
-			synctest.Wait()
+			wait()
 			collect()
+			if recvParked() {
+				parkOther++
+				r.Fault("initiate-ends-during-receive")
+			}
 		case "duplicate":
 			f := deliveredOnce[tp.Choose("which-dup", len(deliveredOnce))]
 			if tp.Chance("resend", 1, 2) && f.env.From != self.Index {
@@ -511,21 +664,39 @@ func c15Run(t *testing.T, r *verifsim.Run) {
 			cancel()
 			cancelled = true
 			r.Fault("cancel")
-			r.Logf("cancel at state %d (initiate parked: %v)", cur, parked() >= 0)
-			synctest.Wait()
+			sc.logf("cancel at state %d (initiate parked: %v, receive parked: %v)", cur, parked() >= 0, recvParked())
+			wait()
+			if recvParked() {
+				parkCancel = true
+				r.Fault("cancel-during-receive")
+			}
 		}
 		if !afterEvent() {
 			return
 		}
 	}
 
+	if recvParked() {
+		if !releaseRecv() || !afterEvent() {
+			return
+		}
+	}
 	// drain: no more faults; everything still needed arrives, time passes
 	if !isDone() && !cancelled {
-		r.Logf("drain")
+		sc.logf("drain")
+		sc.mu.Lock()
+		sc.slowRecv = false
+		sc.mu.Unlock()
 		for guard := 0; guard < 40*n+len(pool)+50 && !isDone(); guard++ {
+			if recvParked() {
+				if !releaseRecv() {
+					return
+				}
+				continue
+			}
 			if k := parked(); k >= 0 {
 				sc.gates.Release(fmt.Sprintf("init-%d", k))
-				synctest.Wait()
+				wait()
 				collect()
 				continue
 			}
@@ -543,7 +714,7 @@ func c15Run(t *testing.T, r *verifsim.Run) {
 				continue
 			}
 			time.Sleep(100 * time.Millisecond)
-			synctest.Wait()
+			wait()
 			collect()
 			r.AddSim(int64(100*time.Millisecond), 0)
 			if !afterEvent() {
@@ -562,7 +733,7 @@ func c15Run(t *testing.T, r *verifsim.Run) {
 	}
 	cancel()
 	sc.gates.ReleaseAll()
-	synctest.Wait()
+	wait()
 	if r.Failed() {
 		return
 	}
